@@ -458,6 +458,65 @@ pub fn cases(tier: Tier) -> Vec<Case> {
             shape_markets(n, &edges, &mut out);
         }
     }
+    // rejection on large markets: each 10..13-currency shape, valid and broken in one place
+    for n in 10..=13usize {
+        let m = n - 1;
+        let h = n / 2;
+        let shapes: Vec<Vec<(usize, usize)>> = vec![
+            (1..n).map(|i| (0, i)).collect(),
+            (1..n).map(|i| if i < h { (0, i) } else if i == h { (0, h) } else { (h, i) }).collect(),
+            (0..m).map(|i| (i, i + 1)).collect(),
+            (0..m).map(|i| if i < m / 2 { (i, i + 1) } else { (i - m / 2, i + 1) }).collect(),
+            (1..n).map(|i| ((i - 1) / 2, i)).collect(),
+        ];
+        for edges in shapes {
+            let ok = vec![1u8; m];
+            let mut variants: Vec<(Vec<(usize, usize)>, Vec<u8>)> = vec![(edges.clone(), ok.clone()), (edges.iter().rev().map(|(a, b)| (*b, *a)).collect(), vec![0u8; m])];
+            // a cycle: one extra quote between two currencies already connected (at the end, at the front, in the middle)
+            for (a, b) in [(edges[0].1, edges[m - 1].1), (edges[m - 1].1, edges[0].0), (edges[m / 2].1, edges[1].1)] {
+                if a == b {
+                    continue;
+                }
+                for pos in [0usize, m / 2, m] {
+                    let mut e = edges.clone();
+                    e.insert(pos, (a, b));
+                    variants.push((e, vec![1u8; m + 1]));
+                }
+            }
+            // a repeated quote, same and opposite orientation, in place of another quote (count stays n-1) and in addition
+            for k in [0usize, m / 2, m - 1] {
+                let mut e = edges.clone();
+                e.push(edges[k]);
+                variants.push((e, vec![1u8; m + 1]));
+                let mut e = edges.clone();
+                e[(k + 1) % m] = (edges[k].1, edges[k].0);
+                variants.push((e, ok.clone()));
+            }
+            // one quote with another settlement date / with none
+            for k in [0usize, m / 2, m - 1] {
+                for dev in [0u8, 2] {
+                    let mut p = ok.clone();
+                    p[k] = dev;
+                    variants.push((edges.clone(), p));
+                }
+            }
+            // one quote missing (two components)
+            for k in [0usize, m / 2, m - 1] {
+                let mut e = edges.clone();
+                e.remove(k);
+                variants.push((e, vec![1u8; m - 1]));
+            }
+            for (pairs, settle) in variants {
+                let mut bases = vec![None, Some(0), Some(n - 1)];
+                if n < CCYS.len() {
+                    bases.push(Some(n)); // a currency not quoted at all
+                }
+                for base in bases {
+                    out.push(Case::Reject { nccy: n, pairs: pairs.clone(), base, settle: settle.clone() });
+                }
+            }
+        }
+    }
     // rejection space
     // quick: 4 currencies, length <= 4; thorough: additionally 5 currencies with length <= 3 (all patterns)
     for (nccy, maxlen) in tier.pick(vec![(4usize, 4usize)], vec![(4, 4), (5, 3)]) {
@@ -530,7 +589,9 @@ pub fn run(ctx: &Ctx, replay_file: Option<String>) -> ! {
          diagonal exactly 1, r(a,b)*r(b,a)=1 and r(a,b) = exact path product to 1e-12 - which also makes the result \
          independent of ordering and base. (3) rejection: every quote sequence of length <= 4 over all ordered pairs of \
          4 (5) currencies x base in {None, each, one foreign} x settlement patterns over {None, d1, d2}: accepted iff \
-         the quotes form a tree over exactly the mentioned currencies and all settlements are equal; never a panic. \
+         the quotes form a tree over exactly the mentioned currencies and all settlements are equal; never a panic; the same verdict \
+         is demanded on the 10..13-currency shapes, valid and broken in one place (an extra quote closing a cycle, a repeated quote in either orientation, \
+         a missing quote, one deviating settlement, a base that is not quoted). \
          Non-trivial: trees that are neither a chain nor a star; rejected sequences.",
         json!({"cases": cs.len(), "all_labelled_trees_up_to": ctx.tier.pick(5, 6), "shapes_up_to": ctx.tier.pick(9, 12)}),
     )
